@@ -146,7 +146,7 @@ def run(chk):
     if chk.want("R13.5"):
         dv = cr.ev("Crystal.density")
         chk.saw(CR, "Crystal.density")
-        ret = dv.returns[-1].value
+        ret = dv.returns.pick(-1).value
         mass = [e for e in dv.events if e.kind == "assign" and e.name == "uc_mass"]
         okm = False
         if not mass:
@@ -155,7 +155,7 @@ def run(chk):
                 pass
             m0 = _M()
             m0.value = ret * P.atom(("call", P.atom(("attr", P.atom(("attr", P.name("self"), "unit_cell")), "volume")), ())) * P.const(Fraction("0.6022"))
-            m0.node = dv.returns[-1].node
+            m0.node = dv.returns.pick(-1).node
             mass = [m0]
         ma = mass[0].value.as_atom()
         comp0 = ma[2][0].as_atom() if ma and call_name(ma) in ("sum", "numpy.sum") and len(ma[2]) == 1 else None
